@@ -195,7 +195,7 @@ def body(case, env):
     if ub: return (dict(base, kind='ubsan', **report()), fp, True, None, classes)
     if p.truncated: classes.append('output-capped(>32MiB)')
     if p.cpu_limit_hit: return (dict(base, kind='cpu-limit-60s', tail=p.out[-300:]), fp, True, None, classes)
-    if p.sig == 25:     # SIGXFSZ: the harness's own RLIMIT_FSIZE (2 GiB) stopped a write at a huge offset of the sparse image - legal for the tool, inconclusive here
+    if p.sig == 25:     # SIGXFSZ: the harness's own RLIMIT_FSIZE (8 GiB) stopped a write at a huge offset of the sparse image - legal for the tool, inconclusive here
         classes.append('inconclusive:file-size-limit'); return (None, fp, False, None, classes)
     if p.sig is not None and not p.truncated: return (dict(base, kind='signal', tail=p.out[-300:]), fp, True, None, classes)
     if not p.truncated and p.rc is not None:
